@@ -5,6 +5,7 @@ import re
 
 from ..core.analysis import (PLATFORMS, Analysis, assigned_names, facts,
                              implies_nonneg, implies_nonzero, map_args)
+from ..core.astutil import deref
 from ..core.guardflow import GuardFlow
 from ..core.pyrepo import PLATFORM_MODULES, Repo, calls_in, dotted, norm_stmt
 from ..core.report import AnalysisError
@@ -611,7 +612,7 @@ def _r4_exact(ctx, repo, A):
     for c in calls_in(fi.node):
         if isinstance(c.func, ast.Attribute) and c.func.attr == "cpu_affinity_set":
             found = True
-            a = c.args[0] if c.args else None
+            a = deref(fi.node, c.args[0]) if c.args else None
             txt = norm_stmt(a).replace(" ", "") if a is not None else ""
             okforms = {f"list(set({pname}))", f"list({pname})", pname,
                        f"sorted(set({pname}))"}
